@@ -403,6 +403,7 @@ func (g *gen) newID() int { g.nextID++; return g.nextID }
 // dbProfiles lists the profiles of the whole-DB engine.
 var dbProfiles = map[string]bool{"latest": true, "crash": true, "crash-sync": true, "flushdur": true,
 	"iterpos": true, "snap": true, "iterview": true, "ibatch": true, "rangekey": true, "masking": true,
+	"commit": true, "concurrent": true,
 	"levels": true, "close": true, "ingest": true, "efos": true, "checkpoint": true, "scaninternal": true, "maint": true, "valsep": true}
 
 // mixProfiles are the profiles generated by genMixed.
@@ -567,6 +568,12 @@ func (e *dbEngine) Generate(profile string, seed uint64, tier string) (*Plan, er
 		}
 		g.genMixed(nops, w)
 	}
+	atomics := false
+	switch profile {
+	case "commit", "concurrent":
+		g.genCommit(profile)
+		atomics = true
+	}
 	switch profile {
 	case "latest":
 		g.genLatest(nops)
@@ -581,7 +588,7 @@ func (e *dbEngine) Generate(profile string, seed uint64, tier string) (*Plan, er
 		g.genCrash(n, profile)
 	}
 	p := &Plan{Engine: "dbsim", Profile: profile, Seed: seed, Tier: tier}
-	p.Sched = genSched(&g.r, false)
+	p.Sched = genSched(&g.r, atomics)
 	p.Cfg = mustJSON(g.cfg)
 	p.Ops = mustJSON(g.ops)
 	return p, nil
